@@ -761,6 +761,14 @@ def check_liveness(scn, res):
 
         return all(alive(up, seen + (name,)) for up, eph, _, _ in sources_of(fs[name]) if eph == 0)
 
+    ended = {(e['f'], e['inc']) for e in res.log if e['ev'] == 'end'}
+    last_inc = {}
+
+    for e in res.log:
+        if e['ev'] == 'start':
+            last_inc[e['f']] = max(last_inc.get(e['f'], 0), e['inc'])
+
+    dead |= {n for n, i in last_inc.items() if (n, i) in ended}       # filters that ended on their own are not live
     sinks = [f['name'] for f in scn['filters'] if f.get('sources') and any(e == 0 for _, e, _, _ in sources_of(f)) and alive(f['name'])]
     seen  = {}
 
